@@ -9,7 +9,10 @@
 (* unchanged for them, and the model checks that invariant-wise.  Statements *)
 (* whose acceptability depends on *when* a constraint is checked (e.g.      *)
 (* SET ID = ID + 1 over consecutive keys) are left out: the properties do   *)
-(* not fix that choice.                                                     *)
+(* not fix that choice.  Negative literals are avoided in INSERT ... VALUES:  *)
+(* the engine refuses any non-literal expression there (also "-1"), which   *)
+(* would make every such statement fail for a reason the model does not     *)
+(* intend; negative values enter the table through UPDATE ... SET N = N - 1. *)
 (***************************************************************************)
 EXTENDS Engine, Json
 CONSTANTS MaxDepth
@@ -19,7 +22,7 @@ vars == <<st, hist>>
 C(n, ty, nn, pk, uq) == [n |-> n, ty |-> ty, nn |-> nn, pk |-> pk, uq |-> uq, def |-> NoDef]
 Setup == << [a |-> "ct", t |-> "T1",
              cols |-> << C("ID", "INTEGER", FALSE, TRUE, FALSE), C("U", "INTEGER", FALSE, FALSE, TRUE), C("N", "INTEGER", TRUE, FALSE, FALSE) >>,
-             pk |-> <<>>, uqs |-> <<>>, checks |-> << CmpE(">=", Col("N"), Lit(I(0))) >>, fks |-> <<>>] >>
+             pk |-> <<>>, uqs |-> <<>>, checks |-> << CmpE("<=", Col("N"), Lit(I(1))) >>, fks |-> <<>>] >>
 RECURSIVE Run(_,_)
 Run(s, as) == IF as = <<>> THEN s ELSE Run(Apply(s, Head(as)).st, Tail(as))
 
@@ -32,16 +35,16 @@ Alphabet ==
       \* valid single rows
       { Ins(<<R(I(1), NULL, I(0))>>), Ins(<<R(I(2), I(1), I(0))>>), Ins(<<R(I(2), I(2), I(1))>>), Ins(<<R(I(3), I(1), I(0))>>) }
       \* single rows that violate PK NOT NULL / NOT NULL / CHECK
- \cup { Ins(<<R(NULL, NULL, I(0))>>), Ins(<<R(I(1), I(1), NULL)>>), Ins(<<R(I(3), NULL, I(-1))>>) }
+ \cup { Ins(<<R(NULL, NULL, I(0))>>), Ins(<<R(I(1), I(1), NULL)>>), Ins(<<R(I(3), NULL, I(2))>>) }
       \* multi-row: valid; duplicate UNIQUE key inside the statement; duplicate PK inside the statement; last row violates CHECK
  \cup { Ins(<<R(I(2), I(2), I(0)), R(I(1), NULL, I(0))>>), Ins(<<R(I(1), I(1), I(0)), R(I(2), I(1), I(0))>>),
-        Ins(<<R(I(3), NULL, I(0)), R(I(3), I(2), I(0))>>), Ins(<<R(I(3), NULL, I(0)), R(I(4), NULL, I(-1))>>) }
+        Ins(<<R(I(3), NULL, I(0)), R(I(3), I(2), I(0))>>), Ins(<<R(I(3), NULL, I(0)), R(I(4), NULL, I(2))>>) }
  \cup { UpdateA("T1", Set1("U", L(1)), NoExpr),                       \* two rows -> duplicate, one row -> fine
         UpdateA("T1", Set1("U", L(1)), CmpE("=", ID, L(2))),
         UpdateA("T1", Set1("U", Lit(NULL)), NoExpr),
         UpdateA("T1", Set1("N", Lit(NULL)), CmpE("=", ID, L(1))),     \* NOT NULL
-        UpdateA("T1", Set1("N", ArE("-", N, L(1))), NoExpr),          \* CHECK fails for the rows with N = 0
-        UpdateA("T1", Set1("N", ArE("+", N, L(1))), CmpE(">=", ID, L(2))),
+        UpdateA("T1", Set1("N", ArE("+", N, L(1))), NoExpr),          \* CHECK fails for the rows with N = 1
+        UpdateA("T1", Set1("N", ArE("-", N, L(1))), CmpE(">=", ID, L(2))),
         UpdateA("T1", Set1("ID", L(2)), CmpE("=", ID, L(1))),         \* PK collision iff 2 exists
         UpdateA("T1", Set1("ID", L(4)), CmpE("=", ID, L(1))),
         UpdateA("T1", Set1("ID", L(5)), IsNullE(U, FALSE)) }          \* several rows -> same key
